@@ -222,7 +222,9 @@ def check_cfg(ctx, fx, cfg):
         # must-have: the loop can observe the closed mailbox at all (a dequeue that never yields None — e.g.
         # select_next_some on a fused mailbox — keeps the actor running with no handle left)
         none_edges = [e for e in nfa.edges_labelled(ln, "sw:Option::None@") if e[1].split("@")[1] in ("next", "mailbox")]
-        ctx.require(len(none_edges) >= 1, "R05.7", "%s-loop-sees-closed-mailbox@%s" % (kind, cfg), "the loop has no branch for the closed mailbox (None from the dequeue): dropping the last strong handle would not end the actor", fn=lf["def"], site=lf["loc"], detail={"edges": len(none_edges)})
+        # ... or reads it as a stop request (`dequeued.unwrap_or(Payload::Stop)`) and has the Stop exit
+        as_stop = [s_ for s_ in loops.closed_as_stop_sites(fx) if s_[0] in loops.loop_family(fx, lf)] and nfa.edges_labelled(ln, "sw:Payload::Stop")
+        ctx.require(len(none_edges) >= 1 or bool(as_stop), "R05.7", "%s-loop-sees-closed-mailbox@%s" % (kind, cfg), "the loop has no branch for the closed mailbox (None from the dequeue): dropping the last strong handle would not end the actor", fn=lf["def"], site=lf["loc"], detail={"edges": len(none_edges)})
     # R05.8 every strong kind owns a mailbox sender
     for k in own.STRONG_KINDS:
         o = fx.owns_of(k, "adt")
